@@ -116,8 +116,14 @@ class Folder:
             for v in vals:
                 r = r or v
             return r
-        if isinstance(e, ast.Compare) and len(e.ops) == 1 and type(e.ops[0]) in _CMP:
-            return _CMP[type(e.ops[0])](self.fold(e.left), self.fold(e.comparators[0]))
+        if isinstance(e, ast.Compare) and all(type(o) in _CMP for o in e.ops):
+            left = self.fold(e.left)
+            for o, c in zip(e.ops, e.comparators):
+                right = self.fold(c)
+                if not _CMP[type(o)](left, right):
+                    return False
+                left = right
+            return True
         if isinstance(e, ast.IfExp):
             return self.fold(e.body) if self.fold(e.test) else self.fold(e.orelse)
         if isinstance(e, (ast.List, ast.Tuple, ast.Set)):
